@@ -3,6 +3,8 @@ import os, threading, time
 import vf
 
 LEVEL = "model_checking"
+TECHNIQUE = ("TLA+ model (TLC): exhaustive bounded enumeration + sampling of token sequences, layer comparison in the model, "
+             "cases replayed on the real updater/remuxer (direct and end to end) + TLC trace validation of every record")
 LEVEL_TEXT = ("Remux.tla states the property over token alphabets (H.264, H.265, MPEG-4 Video, AV1) and transcribes the format "
               "updaters / unit remuxers; TLC enumerates every unit of <= 3 NALs (from both initial parameter states) and every pair "
               "of units of <= 2 NALs, samples longer sequences, and compares the two layers; every sequence is concretized to bytes "
